@@ -763,11 +763,6 @@ def _lazy_attrs(trees):
                                                          (isinstance(t.value, ast.Name) and t.value.id == "self") for t in n.targets)
                        for n in ast.walk(tree)):
                     continue
-                # construct-then-fill protocol: a factory (or any other code) calls the filler on an object it has just built
-                if any(isinstance(c, ast.Call) and isinstance(c.func, ast.Attribute) and c.func.attr in fillers and
-                       not (isinstance(c.func.value, ast.Name) and c.func.value.id == "self") for _, t2 in trees for c in ast.walk(t2)):
-                    continue
-                seen += 1
                 ensurers = set(fillers)
                 grow = True
                 while grow:
@@ -777,6 +772,22 @@ def _lazy_attrs(trees):
                             # a method that always calls a filler first ensures as well (flow-insensitive: it calls one somewhere)
                             ensurers.add(name)
                             grow = True
+                # construct-then-fill protocol: a factory (or any other code) calls the filler - or a method that runs it - on an object
+                # it has just built
+                def built_here(fn_node, name):
+                    return any(isinstance(a, ast.Assign) and any(isinstance(t, ast.Name) and t.id == name for t in a.targets) and
+                               isinstance(a.value, ast.Call) and isinstance(a.value.func, ast.Name) and a.value.func.id[:1].isupper()
+                               for a in ast.walk(fn_node))
+                protocol = False
+                for _, t2 in trees:
+                    for fn2 in [n for n in ast.walk(t2) if isinstance(n, (ast.FunctionDef, ast.AsyncFunctionDef))]:
+                        for c in ast.walk(fn2):
+                            if isinstance(c, ast.Call) and isinstance(c.func, ast.Attribute) and c.func.attr in ensurers and \
+                                    isinstance(c.func.value, ast.Name) and c.func.value.id != "self" and built_here(fn2, c.func.value.id):
+                                protocol = True
+                if protocol:
+                    continue
+                seen += 1
                 for name, m in methods.items():
                     if name in ensurers or name == "__init__" or name in reach:
                         continue
